@@ -8,18 +8,17 @@ import (
 	"go/types"
 	"regexp"
 	"strings"
-
 )
 
 const (
-	fnDistOnce   = "(*" + pRest + ".Distributor).DistributeOnce"
-	fnNewDist    = pRest + ".NewDistributor"
+	fnDistOnce     = "(*" + pRest + ".Distributor).DistributeOnce"
+	fnNewDist      = pRest + ".NewDistributor"
 	cRestGetLatest = "(" + pRest + ".Witness).GetLatestCheckpoint"
-	fnHGetCP     = "(*" + pIHTTP + ".Server).getCheckpoint"
-	fnHGetLogs   = "(*" + pIHTTP + ".Server).getLogs"
-	fnHRegister  = "(*" + pIHTTP + ".Server).RegisterHandlers"
-	fnHForCode   = pIHTTP + ".httpForCode"
-	fnCGetLatest = "(" + pCHTTP + ".Witness).GetLatestCheckpoint"
+	fnHGetCP       = "(*" + pIHTTP + ".Server).getCheckpoint"
+	fnHGetLogs     = "(*" + pIHTTP + ".Server).getLogs"
+	fnHRegister    = "(*" + pIHTTP + ".Server).RegisterHandlers"
+	fnHForCode     = pIHTTP + ".httpForCode"
+	fnCGetLatest   = "(" + pCHTTP + ".Witness).GetLatestCheckpoint"
 )
 
 func ruleDistributor(w *World, r *Run) {
@@ -401,7 +400,6 @@ func ruleReadAPIAs(w *World, r *Run, rule string) {
 	}
 }
 
-
 // relabelFrom copies the verdicts of sub whose key contains keyPart into r under another rule label.
 func relabelFrom(sub, r *Run, keyPart, rule string) int {
 	n := 0
@@ -430,7 +428,6 @@ func ruleDistributorGetsAllLogs(w *World, r *Run, rule string) {
 		r.Undecided(rule, fnMain+" | distributor gets every configured log", "", "no path of Main hands a log list to the distributor")
 	}
 }
-
 
 func ruleReadHandlers(w *World, r *Run) {
 	fn := w.fn(fnHRegister)
@@ -562,7 +559,6 @@ func ruleReadHandlers(w *World, r *Run) {
 		r.Undecided("C16.d", fnHRegister+" | logs route", "", "no success path of the log-list handler")
 	}
 }
-
 
 // ctxDerived: t is ctx or a context derived from it by context.WithTimeout/WithDeadline/WithCancel (a bound added on
 // top of the caller's context keeps the caller's cancellation).
